@@ -1522,9 +1522,17 @@ def args_case(cuqi, meta, q):
     sig = [list(s) for s in meta["sig"]]
     A = np.array([[float(Fraction(a)) for a in row] for row in meta["A"]])
     p = ufs(meta["p"])
-    f = make_callable(sig, A, meta.get("style", "def"))
-    if meta.get("cached") is not None:
-        f._non_default_args = list(meta["cached"])
+    if meta.get("inner_sig") is not None:
+        # a cuqi Model used as the forward callable of another Model: its signature is (*args, **kwargs) and it carries
+        # `_non_default_args` (its own input name, possibly after renaming on a distribution)
+        f = Model(make_callable([list(s_) for s_ in meta["inner_sig"]], A), len(A), len(A[0]))
+        if meta.get("inner_name"):
+            from cuqi.distribution import Gaussian
+            f = f(Gaussian(np.zeros(len(A[0])), 1, name=meta["inner_name"]))
+    else:
+        f = make_callable(sig, A, meta.get("style", "def"))
+        if meta.get("cached") is not None:
+            f._non_default_args = list(meta["cached"])
     model = LinearModel(f, lambda y: A.T @ y, len(A), len(A[0])) if meta.get("mk") == "linfun" else Model(f, len(A), len(A[0]))
     names = list(model._non_default_args)
     x = np.array([float(t) for t in p])
@@ -1563,7 +1571,7 @@ def args_case(cuqi, meta, q):
             any(n not in ("args", "kwargs") and k in ("vp", "vk") for n, k, _ in sig)
         sig_ = SIG_ARGNAME if (names != declared and by_name_class and _args_byname()) else "get_non_default_args|kinds=%s" % pattern
     return Case(expr=expr, meta=meta, cell="args/sig=%s%s%s/npos=%d,kws=%d" % (pattern, "/" + meta["style"] if meta.get("style", "def") != "def" else "",
-                                                                             "/cached" if meta.get("cached") is not None else "", meta["npos"], len(meta["kws"])),
+                                                                             ("/model-as-callable" if meta.get("inner_sig") is not None else "/cached") if meta.get("cached") is not None else "", meta["npos"], len(meta["kws"])),
                 kind="DECISION", impl_fail=fail, signature=sig_)
 
 
@@ -2445,6 +2453,16 @@ def run(ctx):
         A = [[str(rng.randint(-2, 2)) for _ in range(3)] for _ in range(2)]
         for npos, kws in [(1, []), (0, [cached[0]]), (0, [sig[0][0]])]:
             add(args_case, dict(op="args", sig=sig, style="def", cached=cached, npos=npos, kws=kws, A=A, p=fs(rand_vec(rng, 3)), mk="model"))
+
+    # a cuqi Model as the forward callable of another Model (the real source of a `_non_default_args` attribute)
+    msig = [["args", "vp", False], ["kwargs", "vk", False]]
+    for inner_sig, inner_name in [([["x", "pk", False]], None), ([["x", "pk", False]], "theta"), ([["u", "po", False], ["s", "pk", True]], None),
+                                  ([["args", "pk", False]], None), ([["v", "pk", False], ["rest", "vp", False]], "kwargs")]:
+        A = [[str(rng.randint(-2, 2)) for _ in range(3)] for _ in range(2)]
+        nm = inner_name or o_required(inner_sig)[0]
+        for npos, kws in [(1, []), (0, [nm]), (0, [inner_sig[0][0] if inner_name else "zz"]), (2, [])]:
+            add(args_case, dict(op="args", sig=msig, style="def", cached=[nm], inner_sig=inner_sig, inner_name=inner_name, npos=npos, kws=kws,
+                                A=A, p=fs(rand_vec(rng, 3)), mk=["model", "linfun"][npos % 2]))
 
     # ---------------- instances of C12_gradient_chain_rule: every geometry kind with a model-computed Jacobian x every model
     # kind with a gradient, plain vectors (the theorem's form) and array forms for the new linear-expansion gradient (round 3)
